@@ -1403,6 +1403,12 @@ func (a *Agent) createRelayCandidate(ctx context.Context, ep relayEndpoint, ip n
 	candidate, err := NewCandidateRelay(&relayConfig)
 	if err != nil {
 		a.log.Warnf("failed to create relay candidate: %s %d: %v", ip, ep.port, err)
+		// No candidate will ever run onClose: release the TURN client and the local socket here.
+		if onClose != nil {
+			if closeErr := onClose(); closeErr != nil {
+				a.log.Warnf("Failed to release relay endpoint %s: %v", ep.relAddr, closeErr)
+			}
+		}
 
 		return err
 	}
